@@ -401,3 +401,5 @@ add("rd_initfd_dfcc", ["C18", "C12"], ["tu/reader_initfd_dfcc.c"], "h_reader_ini
     assumptions=["fstat / mmap / trailer parser / decoders / checksum / block_init / source_init are capture contracts with arbitrary results (memory safety of the same function over real file bytes: c19_reader_open); mtbl_reader_destroy by its own contract (rd_destroy_dfcc)"])
 add("rd_destroy_dfcc", ["C18"], ["tu/reader_initfd_dfcc.c"], "h_reader_destroy_dfcc", mode="dfcc", enforce="mtbl_reader_destroy/mtbl_reader_destroy__spec",
     replace=["munmap/munmap__cap", "free/free__cap", "block_destroy/block_destroy__cap", "mtbl_source_destroy/mtbl_source_destroy__cap"], unwind=8, timeout=300, slice=1, strength="U", functions=["mtbl_reader_destroy"], assumptions=["munmap / free / block_destroy / mtbl_source_destroy are capture contracts"])
+add("blk_init_safety", ["C19"], ["tu/blk_init_safety.c", "$REPO/mtbl/fixed.c", "$REPO/mtbl/varint.c"], "h_blk_init_safety", unwind=8, object_bits=10, safety="P", timeout=300, strength="U",
+    functions=["block_init", "num_restarts", "mtbl_fixed_decode32"], assumptions=["any byte range of length <= 2^40 with arbitrary content; every pointer / bounds check inside block_init is property-grade; assert() stops are permitted outcomes"])
